@@ -469,14 +469,14 @@ func TestC19_XOF(t *testing.T) {
 	for _, impl := range xofImpls {
 		impl := impl
 		t.Run(impl.name, func(t *testing.T) {
-			rcheck(t, 2400, 100000, func(t *rapid.T) { c19XOFMachine(t, ev, impl) })
+			rcheck(t, 2400, 1200000, func(t *rapid.T) { c19XOFMachine(t, ev, impl) })
 		})
 	}
 }
 
 func TestC19_Random(t *testing.T) {
 	ev := evFor("C19")
-	rcheck(t, 3000, 100000, func(t *rapid.T) {
+	rcheck(t, 3000, 1200000, func(t *rapid.T) {
 		if rapid.IntRange(0, 2).Draw(t, "family") == 0 {
 			c19RandomNew(t, ev)
 		} else {
